@@ -242,12 +242,16 @@ fn p_c05(rng: &mut Rng, tier: Tier) -> Profile {
     p.ttl_pct = *rng.pick(&[50u32, 80, 100]);
     p.advance_pct = *rng.pick(&[30u32, 50, 70]);
     p.w.flush_delay = *rng.pick(&[0u32, 3, 8]);
-    p.ttls = match rng.below(3) {
+    // the statement makes every TTL a number of seconds from the store; there
+    // is no "absolute time above 30 days" reading in it, so larger ones are
+    // checked the same way (ring H only: ring N keeps TTLs <= 120 s)
+    p.ttls = match rng.below(4) {
         0 => vec![1, 2, 3, 5],
         1 => vec![1, 2, 3, 5, 60, 3600, 86400, 2_592_000],
+        2 => vec![2, 2_592_000, 2_592_001, 2_600_000, 100_000_000, u32::MAX - 1, u32::MAX],
         _ => vec![2, 5, 10, 100, 1000],
     };
-    p.far_advance = *rng.pick(&[10u64, 1000, 3_000_000]);
+    p.far_advance = *rng.pick(&[10u64, 1000, 3_000_000, 120_000_000, 5_000_000_000]);
     p
 }
 
